@@ -193,6 +193,25 @@ class C06(Check):
                                                "opts": {"packpos": packpos, "pack_crc": pack_crc, "numunpack": "auto", "substreams": subs, "dummy": dummy,
                                                         "emptyfile_vec": efv, "defined_shortcut": sc, "header": hdr[0], "hdr_crc": hdr[1], "hdr_gap": 0}}
 
+        # entry counts at the byte boundaries of the bit vectors (7, 8, 9, 15, 16, 17, 24), with partly defined time / attribute /
+        # CRC vectors: a vector of exactly 8k bits is where a reader takes one byte too many or too few
+        for n in (7, 8, 9, 15, 16, 17, 24):
+            for variant in range(4):
+                i += 1
+                if not env.mine(i):
+                    continue
+                ms = []
+                for j in range(n):
+                    ms.append({"name": "m%02d" % j, "kind": "file", "data": ["hex", "%02x%02x" % (j, n)], "mtime": 132000000000000000 + j,
+                               "ctime": None, "atime": None, "attr": 0x20})
+                if variant in (0, 2):
+                    ms[1]["mtime"] = None
+                if variant in (1, 2):
+                    ms[n - 2]["attr"] = None
+                yield {"members": ms, "cuts": [n] if variant != 3 else [1] * n, "chains": [[{"m": RC.M_COPY}]], "fcrc": [False], "scrc": [[j % 3 != 1 for j in range(n)] if variant >= 2 else "all"],
+                       "opts": {"packpos": 0, "pack_crc": "partial" if variant == 3 else False, "numunpack": "auto", "substreams": "auto", "dummy": -1,
+                                "emptyfile_vec": "auto", "defined_shortcut": bool(variant % 2), "header": "raw" if variant % 2 else "lzma", "hdr_crc": True, "hdr_gap": 0}}
+
     def strategy(self, env):
         return LY.case_strategy()
 
